@@ -284,10 +284,15 @@ func (f *family) doRollupWork(sourceFamily Family, rollup Rollup, sourceFiles []
 	var inputFiles []*version.FileMeta
 	var logs []version.Log
 	for fileNumber := range targetFiles {
-		if fm, ok := v.GetFile(0, fileNumber); ok {
-			inputFiles = append(inputFiles, fm)
-			logs = append(logs, version.CreateNewReferenceFile(sourceStore, sourceFamilyID, fileNumber))
+		fm, ok := v.GetFile(0, fileNumber)
+		if !ok {
+			// source file is not alive in level 0 of current version(already compacted into up level),
+			// but the file is kept until rollup job completed(ref: deleteObsoleteFiles), just need file number to read it.
+			// if skip it, the file will be marked as rollup completed, and its data is lost in target family.
+			fm = version.NewFileMeta(fileNumber, 0, 0, 0)
 		}
+		inputFiles = append(inputFiles, fm)
+		logs = append(logs, version.CreateNewReferenceFile(sourceStore, sourceFamilyID, fileNumber))
 	}
 	compaction := version.NewCompaction(f.ID(), 0, inputFiles, nil)
 	// add reference file edit logs
